@@ -3,7 +3,7 @@ import json, math
 from fractions import Fraction
 import numpy as np
 from harness import votelib as V, eliclib as E, smlib as S
-from harness.common import pmap, lean_query, guard, fr
+from harness.common import pmap, lean_query, guard, fr, safe_judge
 from harness.c01 import chunks
 
 LEVEL = "proof"
@@ -95,6 +95,7 @@ def impl_machine(case):
     return {"results": out}
 
 
+@safe_judge
 def judge(R, it, res, lean):
     P, vals, k = it["P"], it["vals"], it["k"]
     n, m = len(P), len(P[0])
